@@ -398,6 +398,15 @@ def rule_tables(repo, chk):
             ctor = [c for c in calls_in(l_.node) if (call_name(c) or '').endswith('.create')]
             ok = bool(ctor) and [src(a) for a in ctor[0].args] == ['name', '*args'] and any(k.arg is None and src(k.value) == 'kwargs' for k in ctor[0].keywords)
             chk.ob('j', l_.ref, 'the event is re-created from name, args and kwargs of the packet', ok, loc(l_, l_.node), discr='recreated')
+            # … and whatever keyword the sender used can be passed through: the factory binds no keyword itself
+            cr = repo.cls(EVENTS, 'Event').methods.get('create')
+            okk = cr is not None and not [a.arg for a in cr.node.args.args if a.arg not in ('cls', 'self')] and \
+                (not cr.node.args.args or all(a.arg in ('cls', 'self') for a in cr.node.args.args)) and \
+                (len(cr.node.args.posonlyargs) >= 1 or cr.node.args.vararg is not None and not cr.node.args.args)
+            named = [a.arg for a in (cr.node.args.args if cr is not None else [])]
+            chk.ob('j', cr.ref if cr is not None else l_.ref, 'Event.create takes its own parameters positionally only, so every keyword argument of the packet '
+                   '(including `cls`, `_name`) reaches the event', cr is not None and not named, loc(cr, cr.node) if cr is not None else loc(l_, l_.node),
+                   detail=f'parameters that can be bound by keyword: {named}', discr='factory-binds-no-keyword')
         else:
             v = d.params[0]
             ok = written.get('id') == f'{v}.node_call_id' and written.get('errors') == f'{v}.errors' and written.get('value') in (f'{v}._value', f'{v}.value')
